@@ -199,6 +199,10 @@ class Engine:
             return self.cond(e['r'], lf, False)
         if k == 'lit' and isinstance(e.get('v'), bool):
             return sts if e['v'] == branch else set()
+        if k == 'lit' and isinstance(e.get('v'), int):          # while (0) / while (1)
+            return sts if bool(e['v']) == branch else set()
+        if k == 'cast' and isinstance(e.get('e'), dict) and e['e'].get('k') == 'lit' and isinstance(e['e'].get('v'), (bool, int)):
+            return sts if bool(e['e']['v']) == branch else set()
         sts = self.expr(e, sts)
         out = set()
         for s in sts:
@@ -281,6 +285,10 @@ class Engine:
                 sts = sts | self.labels.pop(s['l'])
             return self.stmt(s.get('body'), sts)
         if k == 'goto':
+            hook = getattr(self.c, 'on_goto', None)
+            if hook is not None:
+                for x in sts:
+                    hook(s, x)
             self.labels.setdefault(s['l'], set()).update(sts)
             return set()
         if k == 'break':
